@@ -64,6 +64,7 @@ struct State
   bool quiet = false;
   bool monotone = false;
   bool strict = false;
+  bool clobber = false;
   int nextOrdinal = 0;
   std::map<int, std::string> closedOnce; // fd -> label it had when the library closed it (until the number is reused)
 };
@@ -222,6 +223,7 @@ void gai_offline(bool on) { Guard g(S().mtx); S().gaiOffline = on; }
 void quiet(bool on) { Guard g(S().mtx); S().quiet = on; }
 void monotone_ordinals(bool on) { Guard g(S().mtx); S().monotone = on; }
 void ledger_strict(bool on) { Guard g(S().mtx); S().strict = on; }
+void clobber_errno(bool on) { Guard g(S().mtx); S().clobber = on; }
 long count(std::string const &sys) { Guard g(S().mtx); return S().counts[sys]; }
 long scripted_fired() { Guard g(S().mtx); return S().fired; }
 
@@ -642,6 +644,7 @@ int getaddrinfo(char const *node, char const *service, struct addrinfo const *hi
     };
     logLine("getaddrinfo node=" + hx(node) + " serv=" + hx(service) + " flags=" + std::to_string(hints ? hints->ai_flags : 0) +
             " -> " + std::to_string(r));
+    if(s.clobber && r == 0) errno = ENOTTY;
   }
   return r;
 }
@@ -657,6 +660,7 @@ int getnameinfo(struct sockaddr const *sa, socklen_t salen, char *host, socklen_
   {
     Guard g(s.mtx);
     logLine("getnameinfo -> " + std::to_string(r));
+    if(s.clobber && r == 0) errno = ENOTTY;
   }
   return r;
 }
